@@ -1684,6 +1684,38 @@ fn c09_case<K: Kmer + Send + Sync>(c: &mut Case, gc: &GCase) -> Result<(), Strin
     let mut s2 = summarize(&pay_views(&again), k, stranded);
     // payload ids are folded again in a different order; compare as sorted multisets (summarize sorts)
     diff_summaries(&s1, &s2, "compressed graph", "re-compressed graph").map_err(|e| format!("idempotence: {}", e))?;
+    // ... and the very same graph object handed back once more, now with the OTHER predicate
+    {
+        let again_copy = relabel_same(&again);
+        let other = !by_colour;
+        let third = compress_graph(stranded, &SpySpec::new(other), again, None);
+        // the model wants one id per input node: relabel `again` by node index, keeping its colours
+        let mut b2: BaseGraph<K, Pay> = BaseGraph::new(stranded);
+        for i in 0..again_copy.len() {
+            let n = again_copy.get_node(i);
+            b2.add(n.sequence().bytes(), n.exts(), Pay { colour: n.data().colour, ids: vec![i as u32] });
+        }
+        let model_input = b2.finish();
+        // `third` folds the id LISTS of `again`; map them back to node indices of `again`
+        let mut third_b: BaseGraph<K, Pay> = BaseGraph::new(stranded);
+        for i in 0..third.len() {
+            let n = third.get_node(i);
+            // every swallowed node contributes its whole id list; recover the node by any of its ids
+            let mut nodes_in: Vec<u32> = Vec::new();
+            let all_ids: BTreeSet<u32> = n.data().ids.iter().cloned().collect();
+            for j in 0..again_copy.len() {
+                let ids_j = &again_copy.get_node(j).data().ids;
+                if all_ids.contains(&ids_j[0]) {
+                    nodes_in.push(j as u32);
+                }
+            }
+            third_b.add(n.sequence().bytes(), n.exts(), Pay { colour: n.data().colour, ids: nodes_in });
+        }
+        let third_view = third_b.finish();
+        c09_check(&model_input, &[], other, &third_view)
+            .map_err(|e| format!("the graph returned by compress_graph(by_colour={}) handed back with by_colour={}: {}", by_colour, other, e))?;
+        c.count("same_object_predicate_switches", 1);
+    }
     s2.payload.clear();
     // the same output re-compressed under the OTHER predicate must follow that predicate (a result
     // must not be "remembered as compressed")
